@@ -16,7 +16,13 @@ pub fn path() -> String {
     format!("{}/known_findings.txt", crate::engine::VERIF_ROOT)
 }
 
+/// the file is read once per process (it is never written at run time)
 pub fn load() -> Vec<Finding> {
+    static CACHE: std::sync::OnceLock<Vec<Finding>> = std::sync::OnceLock::new();
+    CACHE.get_or_init(load_uncached).clone()
+}
+
+fn load_uncached() -> Vec<Finding> {
     let text = std::fs::read_to_string(path()).unwrap_or_default();
     let mut out = vec![];
     for line in text.lines() {
@@ -56,6 +62,11 @@ pub fn open_signatures(property: &str) -> Vec<String> {
 
 /// Generator exclusions implied by *all* open findings (a trigger class hurts every property that executes it).
 pub fn avoid_flags() -> Avoid {
+    static CACHE: std::sync::OnceLock<Avoid> = std::sync::OnceLock::new();
+    CACHE.get_or_init(avoid_flags_uncached).clone()
+}
+
+fn avoid_flags_uncached() -> Avoid {
     let mut a = Avoid::default();
     for f in load() {
         for flag in &f.avoid {
